@@ -793,7 +793,7 @@ pub fn m_replay_number_literal() {
     written.push_str(if parser == 2 && note == 9 { "" } else { suffix });
     // a money literal is tried in currencies of 2, 3 and 0 fraction digits (the currency is symbolic in the encoding)
     let spellings: Vec<String> = match parser { 0 => alloc::vec![written.clone()], 1 => alloc::vec![alloc::format!("{}%", written)],
-        _ => alloc::vec![alloc::format!("${}", written), alloc::format!("{} kwd", written), alloc::format!("{} jpy", written)] };
+        _ => alloc::vec![alloc::format!("${}", written), alloc::format!("{} kwd", written), alloc::format!("{} jpy", written), alloc::format!("{} euro", written), alloc::format!("{} dollar", written)] };
     let mut calc = crate::SmartCalc::default();
     calc.set_decimal_seperator(ds.to_string());
     calc.set_thousand_separator(ts.to_string());
@@ -1024,3 +1024,37 @@ pub fn m_replay_token_location() {
 }
 #[cfg(kani)]
 pub fn m_replay_token_location() {}
+
+/// a literal text natively: (kind 0 number / 1 percent / 2 money / 3 clock time / 4 radix, convention, length, UTF-8
+/// bytes, the value it denotes): the line evaluates to that value (a clock time: to a time)
+#[cfg(not(kani))]
+pub fn m_replay_literal_string() {
+    let kind: u8 = vany(); let conv: u8 = vany(); let n: u8 = vany();
+    vassume(kind <= 4 && conv <= 1 && n >= 1 && n <= 80);
+    let mut bytes: Vec<u8> = Vec::new();
+    let mut i = 0u8;
+    while i < n { bytes.push(vany()); i += 1; }
+    let want: f64 = vany();
+    let text = String::from_utf8(bytes).expect("utf-8 literal");
+    let mut calc = crate::SmartCalc::default();
+    let (ts, ds) = if conv == 0 { (",", ".") } else { (".", ",") };
+    calc.set_decimal_seperator(ds.to_string());
+    calc.set_thousand_separator(ts.to_string());
+    let r = calc.execute("en", text);
+    let line = r.lines[0].as_ref().expect("a result line");
+    let res = line.result.as_ref().expect("the literal evaluates");
+    match res.ast.deref() {
+        SmartCalcAstType::Item(it) => {
+            if kind == 3 { assert!(it.type_name() == "TIME"); }
+            else {
+                let name = it.type_name();
+                assert!(name == match kind { 1 => "PERCENT", 2 => "MONEY", _ => "NUMBER" });
+                let got = it.get_underlying_number();
+                assert!((got - want).abs() <= 1e-9 * want.abs().max(1.0));
+            }
+        },
+        _ => assert!(false),
+    }
+}
+#[cfg(kani)]
+pub fn m_replay_literal_string() {}
